@@ -24,7 +24,9 @@ CONSTANTS N,           \* number of pool components
           Scenarios,   \* set of scenario records
           MaxLookups,  \* user GetComponentByName calls after Run returned
           FixF4,       \* TRUE: failed creation is cleaned up (RemoveSingleton on the error path)
-          FixF9        \* TRUE: the component itself counts as an actual dependent in the early-reference check
+          FixF9,       \* TRUE: the component itself counts as an actual dependent in the early-reference check
+          FixF3        \* TRUE: the holder is removed from its own candidates at resolution time (further matching),
+                       \*       FALSE: only Property.Inject filters it out after it has been fetched
 
 Node == 1..N
 WrapMode == {"none", "early", "after", "bothDiff", "bothSame", "spring"}
@@ -103,6 +105,9 @@ Pop == SubSeq(stack, 1, Len(stack) - 1)
 \*  open  : a slice property is being fetched ; acc : versions fetched for it so far
 \*  exp   : while waiting for a nested creation: what was asked; later the version to publish
 Frame(n) == [n |-> n, pc |-> "mark", todoS |-> {}, todoL |-> {}, open |-> FALSE, acc |-> <<>>, exp |-> NoV]
+
+\* a required point that only the holder itself could satisfy
+SelfOnly(s, h) == (h \in s.single[h] /\ ~s.selfOpt[h]) \/ (s.slice[h] = {h} /\ ~s.sliceOpt[h])
 
 \* Meta.IsSelf: the candidate's origin address is the holder's own object
 IsSelf(h, v) == v.n = h /\ v.o = "raw"
@@ -198,12 +203,15 @@ CreateBegin ==
   /\ stack' = [stack EXCEPT ![Len(stack)] = [Top EXCEPT !.pc = "factory"]]
   /\ UNCHANGED <<sc, L1, L2, L3, fS, fL, deps, phase, cnt, queue, status, lookups, failedEver>>
 
-\* EVENT addFactory(n): doCreateComponent exposes the early-reference factory
+\* EVENT addFactory(n): doCreateComponent exposes the early-reference factory.
+\* With FixF3 the further-matching processor (Order 4) rejects a required self-only point before the
+\* harness processor's resolve event can fire; nothing observable lies between addFactory and the
+\* failing createEnd, so the two code steps are one action here.
 AddFactory ==
   /\ stack # <<>> /\ Top.pc = "factory"
   /\ L3' = L3 \cup {Top.n}
   /\ phase' = [phase EXCEPT ![Top.n] = "populating"]
-  /\ stack' = [stack EXCEPT ![Len(stack)] = [Top EXCEPT !.pc = "resolve"]]
+  /\ stack' = [stack EXCEPT ![Len(stack)] = [Top EXCEPT !.pc = IF FixF3 /\ SelfOnly(sc, Top.n) THEN "fail" ELSE "resolve"]]
   /\ UNCHANGED <<sc, L1, L2, inCr, fS, fL, deps, earlyRuns, seen, cnt, queue, status, lookups, failedEver>>
 
 Bump(n, c) == [cnt EXCEPT ![n][c] = @ + 1]
@@ -214,7 +222,8 @@ Resolve ==
   /\ LET n == Top.n IN
      /\ stack' = [stack EXCEPT ![Len(stack)] =
                  IF sc.fail[n] = "resolve" THEN [Top EXCEPT !.pc = "fail"]
-                 ELSE [Top EXCEPT !.pc = "pop", !.todoS = sc.single[n], !.todoL = sc.slice[n]]]
+                 ELSE [Top EXCEPT !.pc = "pop", !.todoS = IF FixF3 THEN sc.single[n] \ {n} ELSE sc.single[n],
+                                              !.todoL = IF FixF3 THEN sc.slice[n] \ {n} ELSE sc.slice[n]]]
      /\ cnt' = Bump(n, "resolve")
   /\ UNCHANGED <<sc, L1, L2, L3, inCr, fS, fL, deps, earlyRuns, seen, phase, queue, status, lookups, failedEver>>
 
@@ -388,7 +397,6 @@ C05_PopulatedBeforeInit ==
 C05_Lazy == (Started /\ lookups = 0) => \A n \in Node : (phase[n] = "published") <=> (n \in EagerReach(sc))
 
 \* without substitution/faults, failure iff some created holder has a required point only it can satisfy
-SelfOnly(s, h) == (h \in s.single[h] /\ ~s.selfOpt[h]) \/ (s.slice[h] = {h} /\ ~s.sliceOpt[h])
 C02_FailIffSelfOnly ==
   (Quiescent /\ NoSubst /\ status \in {"done", "failed"} /\ lookups = 0) =>
      ((status = "failed") <=> (\E h \in EagerReach(sc) : SelfOnly(sc, h)))
